@@ -17,7 +17,7 @@ FUNCTIONS = ["FlodymArray.validate_values", "FlodymArray._check_value_format", "
              "Stock.validate_stock_arrays", "Stock.validate_time_first_dim", "DynamicStockModel.init_lifetime_model", "DimensionSet.no_repeated_dimensions"]
 ASSUMPTIONS = ["direct attribute overwrites and shape-changing apply() callbacks are outside the documented contract (excluded by the property)"]
 OUTSIDE = ["dtype-dependent behaviour (object dtype throughout)", "histories longer than 3 calls (covered by the inductive step over arbitrary values, not by enumeration)"]
-VARIANTS = 'one dimension asked for twice; DSM time-not-first; same-letter operands of other lengths; to_stock_type'
+VARIANTS = 'one dimension asked for twice; DSM time-not-first; same-letter operands of other lengths; to_stock_type; wrong-shaped ndarrays into zero-dimensional arrays'
 BOUNDS = {"quick": dict(calls="every catalogue operation, every ill-formed call, every ill-formed stock / lifetime-model construction", histories="every ordered pair (ill-formed call, catalogue operation) on one state (structured third)"),
           "thorough": dict(calls="as quick", histories="all pairs and a structured subset of triples")}
 for _t in BOUNDS.values():
